@@ -181,3 +181,39 @@ VARIANTS += [
       "    description = (f\"__cache_{state_dims}_{control_dims}_\"\n"
       "                   + \"_\".join(map(str, layers)))", "silent"),
 ]
+
+VARIANTS += [
+    V("min-ann-probe-beyond-interval", P + "min_ann.py",
+      "        while x_b < 1000.0:", "        while x_b <= 1000.0:", "fire",
+      "D16.3"),
+]
+
+PD = P + "predefined.py"
+VARIANTS += [
+    V("quotient-guarded-by-other-divisor", PD,
+      "    b = params[1]\n    z = np.tanh(1.0 if b == 0 else z / b)",
+      "    b1 = params[1]\n    z = np.tanh(1.0 if b == 0 else z / b1)",
+      "fire", "D16.10"),
+    V("quotient-guard-dropped", PD,
+      "    out[0] = params[2] * np.sin((params[3] / a) if (a != 0.0) "
+      "else 1.0)", "    out[0] = params[2] * np.sin(params[3] / a)", "fire",
+      "D16.10"),
+    V("quotient-guard-inverted", PD,
+      "    out[0] = params[2] * np.sin((params[3] / a) if (a != 0.0) "
+      "else 1.0)",
+      "    out[0] = params[2] * np.sin((params[3] / a) if (a == 0.0) "
+      "else 1.0)", "fire", "D16.10"),
+    V("silent-quotient-if-statement", PD,
+      "    out[0] = params[2] * np.sin((params[3] / a) if (a != 0.0) "
+      "else 1.0)",
+      "    q = 1.0\n    if a != 0.0:\n        q = params[3] / a\n"
+      "    out[0] = params[2] * np.sin(q)", "silent"),
+    V("silent-quotient-fresh-names", PD,
+      "    b = params[1]\n    z = np.tanh(1.0 if b == 0 else z / b)",
+      "    b1 = params[1]\n    z = np.tanh(z / b1 if b1 != 0 else 1.0)",
+      "silent"),
+    V("silent-quotient-abs-threshold", PD,
+      "    b = params[1]\n    z = np.tanh(1.0 if b == 0 else z / b)",
+      "    b = params[1]\n    z = np.tanh(z / b if abs(b) > 0.0 else 1.0)",
+      "silent"),
+]
